@@ -376,8 +376,20 @@ KEYS_T = ["C", "G", "a", "Eb"]
 _COLD = {"answers": None, "state": None}
 
 
+_FFT_TABLE = []
+
+
+def fft_table():
+    """The frequency table the lookup is about: the pitches of the notes 0..128, obtained through the public
+    Note API (never from the module's private table, whose name and type are the library's business)."""
+    if not _FFT_TABLE:
+        from mingus.containers.note import Note
+        _FFT_TABLE.extend(Note().from_int(x).to_hertz() for x in range(129))
+    return _FFT_TABLE
+
+
 def fft_inputs(tier):
-    tab = FFT_SPACE.cold[("mod", "mingus.extra.fft", "_log_cache")]
+    tab = fft_table()
     xs = []
     for c in tab:
         xs += [0.999 * c, c, 1.001 * c]
@@ -762,7 +774,7 @@ FFT_BATTERY = None
 def fft_battery():
     global FFT_BATTERY
     if FFT_BATTERY is None:
-        tab = FFT_SPACE.cold[("mod", "mingus.extra.fft", "_log_cache")]
+        tab = fft_table()
         table = [T(FL(tab[127]), FL(1.0)), T(FL(tab[128] * 1.5), FL(0.5)), T(FL(tab[60]), FL(0.25)), T(FL(tab[60] * 1.001), FL(2.0)),
                  T(FL(tab[0] * 0.5), FL(1.0)), T(FL(tab[128]), FL(1.0)), T(FL(tab[100] * 0.999), FL(1.0))]
         FFT_BATTERY = [Q("mingus.extra.fft", "find_notes", table), Q("mingus.extra.fft", "find_notes", FREQ_TABLE)]
@@ -809,7 +821,7 @@ class FftSpec(BfsSpec):
             if want is None:
                 want = _FFT_WANT[act[1]] = cold_answer(Q("mingus.extra.fft", "_find_log_index", {"hex": act[1]}))["r"]
             got = render(val)
-            tab = FFT_SPACE.cold[("mod", "mingus.extra.fft", "_log_cache")]
+            tab = fft_table()
             S.count("fft_cold_matches_bisect" if want == bisect_spec(tab, f) else "fft_cold_differs_from_bisect")
             if got != want:
                 S.problem("fft._find_log_index(%r)" % f, want, got, detail="lookup depends on previous lookups",
@@ -818,8 +830,8 @@ class FftSpec(BfsSpec):
     def invariant(self, st):
         S = engine.S
         key = st.canon()
-        la = _lib("mingus.extra.fft")._last_asked
-        S.outcome("cursor=%s" % (la[0] if isinstance(la, tuple) else la,))
+        la = getattr(_lib("mingus.extra.fft"), "_last_asked", None)     # only for the evidence sample; may not exist
+        S.outcome("fft-state=%s" % (str(key)[:12],))
         hist = (S.current_case or {}).get("history") if isinstance(S.current_case, dict) else None
         if hist and len(hist) >= 2:
             S.sample({"lookups": [float.fromhex(a[1]) for a in hist], "cursor": render(la)})
@@ -967,6 +979,21 @@ def gen_arguments(owner_name):
 # ---------------------------------------------------------------------------------------
 # instances / copies
 # ---------------------------------------------------------------------------------------
+def strip_private(r):
+    """Drop attributes whose name starts with an underscore from a rendering.  What one object shows of itself
+    is its public state; a private memo that a (correct) library keeps inside an object -- also inside an object
+    that two instances legitimately share, like the Note objects of a class-level default range -- is not content."""
+    if isinstance(r, dict):
+        if "O" in r and "v" in r:
+            return {"O": r["O"], "v": [[k, strip_private(v)] for k, v in r["v"] if not (isinstance(k, str) and k.startswith("_"))]}
+        return {k: strip_private(v) for k, v in r.items()}
+    if isinstance(r, list):
+        if r and r[0] == "D":
+            return ["D"] + [[k, strip_private(v)] for k, v in r[1:] if not (isinstance(k, str) and k.startswith("_"))]
+        return [strip_private(v) for v in r]
+    return r
+
+
 def observe(x):
     eff = {}
     for n in dir(x):
@@ -979,7 +1006,7 @@ def observe(x):
         if callable(v):
             continue
         eff[n] = v
-    return rkey(render({"vars": dict(vars(x)), "effective": eff}))
+    return rkey(strip_private(render({"vars": dict(vars(x)), "effective": eff})))
 
 
 def class_defaults(cls):
@@ -992,8 +1019,10 @@ def class_defaults(cls):
                 continue
             if isinstance(v, (staticmethod, classmethod, property)) or callable(v):
                 continue
+            if n.startswith("_"):
+                continue
             out["%s.%s" % (k.__qualname__, n)] = v
-    return rkey(render(out))
+    return rkey(strip_private(render(out)))
 
 
 def class_ops(owner_name):
